@@ -167,6 +167,7 @@ func (w *world) genesis() *types.Genesis {
 		ID:        types.ChainID{Version: 0, Magic: "c06.verif", PublicNet: false, MainNet: false, Consensus: "sbp"},
 		Timestamp: 1_600_000_000_000_000_000,
 		Balance:   map[string]string{},
+		BPs:       append([]string{}, w.bpIDs...),
 	}
 	for _, a := range w.addrs {
 		g.Balance[types.EncodeAddress(a)] = "1000000000000000000000"
@@ -221,7 +222,7 @@ func (w *world) bootX(dir string, realStatus bool) *node {
 	n.cs = chain.NewChainService(cfg)
 	n.cons = &stubCons{cs: n.cs}
 	if realStatus {
-		cm, err := bp.VerifNewCluster(w.bpIDs)
+		cm, err := bp.NewCluster(n.cs.CDB()) // the genesis producer list, as dpos.New does
 		if err != nil {
 			panic(err)
 		}
